@@ -1214,7 +1214,16 @@ def resolve_terms(prog, t, depth=3, _memo=None, assumptions=()):
             args = tuple(rec(a) for a in t[2])
             cb = _callee_body(prog, t)
             out = None
-            if t[1].startswith("cw_storage_plus::") and t[1].endswith("::update") and args and args[-1][0] == "closure" and depth > 0:
+            if t[1].split("::")[-1] in ("call", "call_once", "call_mut") and "ops::Fn" in t[1] and len(args) == 2 and args[0][0] == "closure" and depth > 0 and prog.body(args[0][1]) is not None:
+                # a local closure called on the spot: its body with captures and arguments bound
+                cbq = prog.body(args[0][1])
+                caps = {n: v for _, n, v in args[0][2]}
+                pa = args[1][1] if args[1][0] == "tuple" else ()
+                cq = Ctx(cbq, params={i + 2: a for i, a in enumerate(pa)}, captures=caps, assumptions=assumptions).settle()
+                rq = cq.T.return_term()
+                if not contains(rq, lambda s_: s_[0] in ("cycle", "undef")):
+                    out = rec(rq, depth - 1)
+            if out is None and t[1].startswith("cw_storage_plus::") and t[1].endswith("::update") and args and args[-1][0] == "closure" and depth > 0:
                 # the value ITEM.update returns is what its closure returned for the loaded value
                 cc = update_closure_ctx(prog, ("call", t[1], args), assumptions)
                 if cc is not None:
